@@ -277,7 +277,7 @@ class Emitter:
             o.append("%s%s; %s->slot[%d] = 0;" % (ind, fl.call(
                 "yy_delete_buffer", "(yybuffer) %s->slot[%d]" % (C, op[1])), C, op[1]))
         elif k in ("gcreate", "gswitch", "gpush", "gpop", "gdelete", "gscan_bytes",
-                   "gscan_string", "gscan_buffer", "gflush"):
+                   "gscan_string", "gscan_buffer", "gflush", "greflush"):
             self.uses.add("bufhelpers")
             args = [str(a) for a in op[1:]]
             if k == "gcreate" and len(op) < 4:
@@ -428,7 +428,8 @@ class Emitter:
                           "vfb_scan_bytes(int s, int si%s)" % pa,
                           "vfb_scan_string(int s, int si%s)" % pa,
                           "vfb_scan_buffer(int s, int si, int ok%s)" % pa,
-                          "vfb_flush(int s%s)" % pa, "vfb_delete_all(%s)" % p0):
+                          "vfb_flush(int s%s)" % pa, "vfb_reflush(int s%s)" % pa,
+                          "vfb_delete_all(%s)" % p0):
                 L.append("static void %s;" % proto)
         L.append("%}")
         opts = []
@@ -774,6 +775,16 @@ class Emitter:
                 L.append("\t\t%s;" % fl.call("yy_switch_to_buffer",
                                              "(yybuffer) c->slot[%d]" % op[1]))
                 L.append("\t\treturn 0;")
+            elif op[0] == "gswitch_or_pop":
+                # keep the exhausted buffer and continue in slot op[1] if that one is usable,
+                # otherwise behave like "pop"
+                L.append("\t\tif (c->slot[%d] && !vfb_onstack(%d)) { vf_W(c, k, 0); %s; "
+                         "c->bstk[c->bdepth - 1] = %d; return 0; }" % (
+                             op[1], op[1], fl.call("yy_switch_to_buffer",
+                                                   "(yybuffer) c->slot[%d]" % op[1]), op[1]))
+                L.append("\t\t{ int more = c->bdepth > 1; vf_W(c, k, more ? 0 : 1); "
+                         "if (more) { vfb_dopop(%s); return 0; } return 1; }" % fl.a0)
+                self.uses.add("bufhelpers")
             elif op[0] == "pop":
                 L.append("\t\t{ int more = c->bdepth > 1; vf_W(c, k, more ? 0 : 1); "
                          "if (more) { vfb_dopop(%s); return 0; } return 1; }" % fl.a0)
@@ -916,6 +927,12 @@ class Emitter:
                  "if (%s->slotsrc[s] < 0) snprintf(b, sizeof b, \"flush %%d -\", s); "
                  "else snprintf(b, sizeof b, \"flush %%d %%ld\", s, "
                  "(long) %s->src[%s->slotsrc[s]].pos); "
+                 "vf_X(%s, b); %s; }" % (
+                     PA, c, c, c, c, c, call("yy_flush_buffer", "(yybuffer) %s->slot[s]" % c)))
+        # the file behind a buffer is read again from its start: rewind + yy_flush_buffer
+        H.append("static void vfb_reflush(int s%s) { char b[64]; "
+                 "if (!%s->slot[s] || %s->slotsrc[s] < 0) { vfb_skip(\"reflush\"); return; } "
+                 "vf_rewind(%s, %s->slotsrc[s]); snprintf(b, sizeof b, \"reflush %%d\", s); "
                  "vf_X(%s, b); %s; }" % (
                      PA, c, c, c, c, c, call("yy_flush_buffer", "(yybuffer) %s->slot[s]" % c)))
         return H
